@@ -39,6 +39,9 @@ type Caps struct {
 	CursorStyle        int // DECRQSS answer (0-6); -1 = no reply
 	AppID              string
 	NoDA1              bool
+	// PreSet lists gated private modes that are already set when the
+	// application starts (DECRQM then answers Ps=1 instead of 2).
+	PreSet map[int]bool
 }
 
 // Names lists the 15 independent advertised features in a fixed order.
@@ -142,7 +145,9 @@ func (r *Responder) handle(t lexer.Token) {
 			n := t.P(0, 0)
 			sup := (n == 2026 && c.Sync) || (n == 2027 && c.UnicodeCore) || (n == 2031 && c.ColorTheme)
 			r.Queries = append(r.Queries, fmt.Sprintf("decrqm%d", n))
-			if sup {
+			if sup && c.PreSet[n] {
+				r.send(fmt.Sprintf("\x1b[?%d;1$y", n))
+			} else if sup {
 				r.send(fmt.Sprintf("\x1b[?%d;2$y", n))
 			} else if c.RepliesUnsupported {
 				r.send(fmt.Sprintf("\x1b[?%d;0$y", n))
